@@ -178,8 +178,24 @@ def main():
         only = json.load(open(a.replay))["key"]
     viol, known, obs = run_property(a.pid, tier, a.repo, write_evidence=not a.no_evidence, only_key=only)
     if tier == "thorough" and not only:
-        import selftest
-        rc = selftest.run(a.pid)
+        import selftest_run
+        t1 = time.time()
+        rc = selftest_run.run(a.pid, repo=a.repo)
+        st_wall = time.time() - t1
+        # record the self-test in the evidence of this (thorough) run
+        evp = os.path.join(VERIF, "evidence", "%s.json" % a.pid)
+        if os.path.exists(evp) and not a.no_evidence:
+            ev = json.load(open(evp))
+            st = getattr(selftest_run.run, "last_summary", None) or {}
+            ev["coverage"]["selftest"] = st
+            ev["coverage"]["explanation"] += (
+                " Thorough tier: checker self-test on %d one-edit mutants of /repo (own corpus + seeded changes written by "
+                "independent sub-agents), each applied to a scratch copy and required to be reported by the named rule: "
+                "%d caught, %d stale, %d missed." % (st.get("mutants", 0), st.get("caught", 0), st.get("stale", 0), st.get("missed", 0)))
+            ev["wall_s"] = round(ev.get("wall_s", 0) + st_wall, 2)
+            if rc != 0:
+                ev["violations"] = ev.get("violations", 0) + 1
+            json.dump(ev, open(evp, "w"), indent=1)
         if rc != 0:
             sys.exit(1)
     sys.exit(1 if viol else 0)
